@@ -23,14 +23,15 @@ import (
 
 	"github.com/lidofinance/dc4bc/airgapped"
 	"github.com/lidofinance/dc4bc/client/api/dto"
+	"github.com/lidofinance/dc4bc/client/types"
 	"github.com/lidofinance/dc4bc/fsm/types/requests"
 	"github.com/lidofinance/dc4bc/storage"
 )
 
 type secretStats struct {
-	Ops, Scenarios, Secrets, Haystacks, Searches, DealPairs, WrongPasswords, RoundPairs, NoncesSeen, SealedValues, RotatedRounds, LookAlikeRounds, VerifyCommands, FaultyAnswers int
-	OutcomeHist                                                                                                                                                                  map[string]int
-	Monitors, Notes, Samples                                                                                                                                                     []string
+	Ops, Scenarios, Secrets, Haystacks, Searches, DealPairs, WrongPasswords, Relocks, RoundPairs, NoncesSeen, SealedValues, RotatedRounds, LookAlikeRounds, VerifyCommands, FaultyAnswers int
+	OutcomeHist                                                                                                                                                                           map[string]int
+	Monitors, Notes, Samples                                                                                                                                                              []string
 }
 
 type secretRun struct {
@@ -468,6 +469,19 @@ func (r *secretRun) scenario(outDir string, n, t int) {
 			}
 		}
 	}
+	// (c1) a LIVE machine that has been unlocked with the right password and has worked (key generations, signing): the idle
+	// timer drops the sensitive data, then nobody types a password / somebody types wrong ones, one after the other, on the
+	// same Machine value: neither the long-term key nor a share may load, nothing may be signed; the right password at the end
+	// opens everything again
+	for i, nd := range c.nodes {
+		var signOps []types.Operation
+		for _, op := range nd.coldLog {
+			if string(op.Type) == "state_signing_await_partial_signs" {
+				signOps = append(signOps, op)
+			}
+		}
+		r.relock(fmt.Sprintf("%s the running machine %d (after its key generations and signing)", tag, i), nd.air, "right-password", r.wrongPasswords("right-password", 3), signOps)
+	}
 	c.close()
 	closed = true
 	for i, d := range dbDirs {
@@ -514,8 +528,122 @@ func (r *secretRun) scenario(outDir string, n, t int) {
 			}
 			m.VerifCloseDB()
 		}
+		// the same on ONE Machine value: started, unlocked with the right password, keys and keyrings read, idle timer, wrong ones
+		if m, err := airgapped.NewMachine(d); err == nil {
+			m.SetEncryptionKey([]byte("right-password"))
+			if err := m.InitKeys(); err != nil {
+				r.mon(fmt.Sprintf("harness: %s machine %d does not open with the right password: %v", tag, i, err))
+			} else {
+				r.relock(fmt.Sprintf("%s machine %d (restarted on its database, unlocked with the right password)", tag, i), m, "right-password", r.wrongPasswords("right-password", 2), nil)
+			}
+			m.VerifCloseDB()
+		} else {
+			r.mon("harness: reopen: " + err.Error())
+		}
 	}
 	_ = storage.Message{}
+}
+
+// wrongPasswords: near misses of the right one, the empty one and k random ones
+func (r *secretRun) wrongPasswords(right string, k int) []string {
+	out := []string{"wrong-password", "", right[:len(right)-1], right + " ", strings.ToUpper(right)}
+	for i := 0; i < k; i++ {
+		bz := make([]byte, 1+r.rng.Intn(24))
+		r.rng.Read(bz)
+		if r.rng.Intn(2) == 0 {
+			out = append(out, hex.EncodeToString(bz))
+		} else {
+			out = append(out, base64.StdEncoding.EncodeToString(bz))
+		}
+	}
+	r.rng.Shuffle(len(out), func(i, j int) { out[i], out[j] = out[j], out[i] })
+	return out
+}
+
+// relock (C04: "stored only encrypted under the operator's password: with a wrong password they cannot be loaded"): m is
+// unlocked with the right password and has loaded its key and its keyrings. What cmd/airgapped does from then on, on this
+// very Machine value: the idle timer calls DropSensitiveData(); the next command asks for the password again
+// (SetEncryptionKey, then InitKeys -> LoadKeysFromDB; the commands then read the keyrings / sign). So: drop, try to load
+// with no password at all, set a wrong password, try to load; again for every wrong password (no right one in between);
+// at the end the right password must open the same key and the same shares.
+func (r *secretRun) relock(who string, m *airgapped.Machine, right string, wrongs []string, signOps []types.Operation) {
+	r.st.Relocks++
+	if err := m.LoadKeysFromDB(); err != nil {
+		r.mon(fmt.Sprintf("harness: %s: the right password does not load the keys: %v", who, err))
+		return
+	}
+	wantKey := scalarBytes(m.VerifSecKey())
+	wantRings, err := m.GetBLSKeyrings()
+	if err != nil {
+		r.mon(fmt.Sprintf("harness: %s: the right password does not load the keyrings: %v", who, err))
+		return
+	}
+	shareOf := map[string][]byte{}
+	for rd, k := range wantRings {
+		if k != nil && k.Share != nil {
+			shareOf[rd] = scalarBytes(k.Share.V)
+		}
+	}
+	loads := func(how string) {
+		r.st.WrongPasswords++
+		if err := m.LoadKeysFromDB(); err == nil {
+			same := m.VerifSecKey() != nil && bytes.Equal(scalarBytes(m.VerifSecKey()), wantKey)
+			r.mon(fmt.Sprintf("C04 wrong_password: %s: unlocked with the right password, then DropSensitiveData(); %s: LoadKeysFromDB succeeds (it loads the machine's long-term private key: %v)", who, how, same))
+		}
+		if ks, err := m.GetBLSKeyrings(); err == nil && len(ks) > 0 {
+			same := 0
+			for rd, k := range ks {
+				if k != nil && k.Share != nil && shareOf[rd] != nil && bytes.Equal(scalarBytes(k.Share.V), shareOf[rd]) {
+					same++
+				}
+			}
+			r.mon(fmt.Sprintf("C04 wrong_password: %s: unlocked with the right password, then DropSensitiveData(); %s: GetBLSKeyrings returns %d keyrings (%d of them with the machine's BLS share of that round)", who, how, len(ks), same))
+		}
+		for _, op := range signOps {
+			signed := 0
+			func() {
+				defer func() { recover() }()
+				res, err := m.GetOperationResult(op)
+				if err != nil {
+					return
+				}
+				for _, rm := range res.ResultMsgs {
+					var req requests.SigningProposalBatchPartialSignRequests
+					if rm.Event == "event_signing_partial_sign_received" && json.Unmarshal(rm.Data, &req) == nil {
+						signed += len(req.PartialSigns)
+					}
+				}
+			}()
+			if signed > 0 {
+				r.mon(fmt.Sprintf("C04 wrong_password: %s: unlocked with the right password, then DropSensitiveData(); %s: the signing operation of round %.8s is answered with %d partial signatures (the BLS share of the round was loaded)", who, how, op.DKGIdentifier, signed))
+			}
+		}
+	}
+	for k, pw := range wrongs {
+		m.DropSensitiveData()
+		loads(fmt.Sprintf("attempt %d, locked, no password entered", k))
+		m.SetEncryptionKey([]byte(pw))
+		loads(fmt.Sprintf("attempt %d, SetEncryptionKey(%q) - a wrong password", k, pw))
+	}
+	m.DropSensitiveData()
+	m.SetEncryptionKey([]byte(right))
+	if err := m.LoadKeysFromDB(); err != nil {
+		r.mon(fmt.Sprintf("harness: %s: after %d wrong passwords the right one does not load the keys any more: %v", who, len(wrongs), err))
+		return
+	}
+	if !bytes.Equal(scalarBytes(m.VerifSecKey()), wantKey) {
+		r.mon(fmt.Sprintf("harness: %s: after %d wrong passwords the right one loads another long-term key", who, len(wrongs)))
+	}
+	ks, err := m.GetBLSKeyrings()
+	if err != nil || len(ks) != len(wantRings) {
+		r.mon(fmt.Sprintf("harness: %s: after %d wrong passwords the right one loads %d of %d keyrings (%v)", who, len(wrongs), len(ks), len(wantRings), err))
+		return
+	}
+	for rd, k := range ks {
+		if k == nil || k.Share == nil || !bytes.Equal(scalarBytes(k.Share.V), shareOf[rd]) {
+			r.mon(fmt.Sprintf("harness: %s: after %d wrong passwords the right one loads another share for round %.8s", who, len(wrongs), rd))
+		}
+	}
 }
 
 // lookAlikes: a key generation among participants whose names differ only in the case of a letter: what is dealt to "Bob"
